@@ -275,3 +275,122 @@ example : hashes ((run wOldSnap [0, 0, 0, 0,  1, 1, 1, 1, 1, 1, 1,  0, 0, 0, 0, 
   decide
 
 end Model.C14
+
+namespace Model.C14
+/-- EVERY HEAD OF THE RESULT IS AN ENTRY OF THE RESULT — for **any** pair (entries, heads) read from
+    the source, consistent or not (also a source that a size-bounded merge trimmed between the two reads,
+    so that its old head is no longer among its entries), any size bound and any validity predicate.
+    This is the unconditional form that the repaired head filter of `Join` gives. -/
+theorem join_heads_are_entries_any (dest dest' : Log) (otherId : Bytes) (E2 H1 : List Entry) (size : Int)
+    (valid : Entry → Bool) (hdh : ∀ x ∈ dest.heads, x.hash ∈ hashes dest.entries)
+    (hj : join dest otherId E2 H1 size valid = .ok dest') :
+    ∀ x ∈ dest'.heads, x.hash ∈ hashes dest'.entries := by
+  unfold join at hj
+  by_cases hid : dest.id ≠ otherId
+  · rw [if_pos hid] at hj
+    cases hj
+    exact hdh
+  · rw [if_neg hid] at hj
+    split at hj
+    · cases hj
+    · cases hj
+      intro x hx
+      show x.hash ∈ hashes (joinTrim (joinMerge dest E2 H1) size).entries
+      have hx' : x ∈ (joinTrim (joinMerge dest E2 H1) size).heads := hx
+      unfold joinTrim at hx' ⊢
+      have memOm : ∀ (l : List Entry) (y : Entry), y ∈ omFromList l → y ∈ l := by
+        intro l y hy
+        rcases mem_foldl_omSet l [] hy with h | h
+        · cases h
+        · exact h
+      by_cases hs : size > -1
+      · rw [if_pos hs] at hx' ⊢
+        have h1 := memOm _ _ hx'
+        unfold findHeads at h1
+        have h2 := (List.mem_filter.mp ((goSort_perm _ _).mem_iff.mp h1)).1
+        exact List.mem_map.mpr ⟨x, h2, rfl⟩
+      · rw [if_neg hs] at hx' ⊢
+        have hm := memOm _ _ hx'
+        have hf := (List.mem_filter.mp hm).2
+        simp only [Bool.and_eq_true] at hf
+        exact has_iff.mp hf.2
+end Model.C14
+
+namespace Model.C14
+open Model Model.Conc
+/-- every head of every log is one of its entries (by hash) -/
+def HeadsIn (w : World) : Prop := ∀ l, ∀ x ∈ (w.logs l).heads, x.hash ∈ hashes (w.logs l).entries
+
+theorem applyW_headsIn (op : WOp) (r : Regs) (l : Log) (h : ∀ x ∈ l.heads, x.hash ∈ hashes l.entries) :
+    ∀ x ∈ (applyW op r l).1.heads, x.hash ∈ hashes (applyW op r l).1.entries := by
+  cases op with
+  | append pc hh tag =>
+    intro x hx
+    have hx' : x ∈ omFromList [(append l pc hh tag).1] := hx
+    have : x = (append l pc hh tag).1 := by
+      rcases mem_foldl_omSet [(append l pc hh tag).1] [] hx' with h1 | h1
+      · cases h1
+      · exact List.mem_singleton.mp h1
+    subst this
+    show (append l pc hh tag).1.hash ∈ hashes (omSet l.entries (append l pc hh tag).1)
+    rw [hashes_omSet]
+    split <;> simp_all [has_iff]
+  | join oid size =>
+    simp only [applyW]
+    split
+    · rename_i l' hj
+      exact join_heads_are_entries_any l l' oid r.es r.hs size _ h hj
+    · exact h
+  | setIdentity cid => exact h
+
+/-- **in the concurrent world, for every set of programs and every schedule** (merges racing appends,
+    size-bounded merges trimming the source between the two reads of another merge, cross merges, …):
+    every head of every log is an entry of that log, at every instant -/
+theorem heads_are_entries_every_schedule : ∀ (s : List Tid) (w0 w : World), exec w0 s = some w → HeadsIn w0 → HeadsIn w
+  | [], w0, w, h, h0 => by simp only [exec, Option.some.injEq] at h; exact h ▸ h0
+  | t :: ts, w0, w, h, h0 => by
+    simp only [exec] at h
+    cases hs : step w0 t with
+    | none => rw [hs] at h; cases h
+    | some w1 =>
+      rw [hs] at h
+      refine heads_are_entries_every_schedule ts w1 w h ?_
+      -- one step: only a `write` changes a log
+      have hsd := step_sound hs
+      cases hsd with
+      | write l op rest hr =>
+        intro l' x hx
+        dsimp only at hx ⊢
+        by_cases hl : l' = l
+        · subst hl
+          rw [upd_same] at hx ⊢
+          exact applyW_headsIn op _ _ (h0 l') x hx
+        · rw [upd_other _ _ hl] at hx ⊢
+          exact h0 l' x hx
+      | _ => exact h0
+/-! non-vacuity, and the schedule the theorem is about: log 1 = b1 ← b2, log 2 = c1 (newer).  Thread 0
+merges log 1 into the empty log 0; after it has read the heads `[b2]` of log 1, thread 1 merges log 2 into
+log 1 with bound 1, which trims log 1 to `[c1]`; thread 0 then reads the entries `[c1]`.  Its stale head
+`b2` is not an entry of the result and is dropped: log 0 ends with no head that is not its entry. -/
+def tb1 : Entry := { hash := [1], logId := [7], next := [], refs := [], clock := { id := [4], time := 1 } }
+def tb2 : Entry := { hash := [2], logId := [7], next := [[1]], refs := [], clock := { id := [4], time := 2 } }
+def tc1 : Entry := { hash := [3], logId := [7], next := [], refs := [], clock := { id := [5], time := 5 } }
+def wT : World := mkWorld
+  (fun i => if i = 1 then { id := [7], entries := [tb1, tb2], heads := [tb2], nextIdx := [[1]], clock := { id := [4], time := 2 }, sortFn := .lww }
+            else if i = 2 then { id := [7], entries := [tc1], heads := [tc1], nextIdx := [], clock := { id := [5], time := 5 }, sortFn := .lww }
+            else C13.log0)
+  (progsOfList [joinProg 0 1 [7] (-1), joinProg 1 2 [7] 1])
+def schedT : List Tid := List.replicate 6 0 ++ List.replicate 15 1 ++ List.replicate 9 0
+
+example : (exec wT schedT).map (fun w => (hashes (w.logs 1).entries, hashes (w.logs 0).entries, hashes (w.logs 0).heads,
+    (w.thr 0).rest.length + (w.thr 1).rest.length)) = some ([[3]], [], [], 0) := by decide
+
+example : HeadsIn wT := by
+  intro l x hx
+  by_cases h1 : l = 1
+  · subst h1; simp [wT, mkWorld] at hx ⊢; subst hx; decide
+  · by_cases h2 : l = 2
+    · subst h2; simp [wT, mkWorld] at hx ⊢; subst hx; decide
+    · simp [wT, mkWorld, h1, h2, C13.log0] at hx
+
+end Model.C14
